@@ -92,7 +92,8 @@ def gen_query(rng, fam):
 def gen_shared_query(rng, objs):
     """queries over a population of objects that lives as long as the history (per-instance caches included)"""
     refs = [{"ref": i} for i in range(len(objs))]
-    k = rng.choice(["h", "h", "rwc", "order", "app", "eq", "eq", "hasheq", "setlen", "dictget", "homog", "lowest", "lowest", "items"])
+    k = rng.choice(["h", "h", "rwc", "order", "app", "eq", "eq", "hasheq", "setlen", "dictget", "homog", "lowest", "lowest", "items",
+                    "umap_lowest", "umap_lowest"])
     a = rng.choice(refs)
     if k in ("h", "rwc", "app"):
         n = rng.randint(2, 3)
@@ -108,6 +109,8 @@ def gen_shared_query(rng, objs):
         return {"q": k, "h": a, "n": n, "pos": rng.randint(-n, n - 1) if n else 0}
     if k in ("eq", "hasheq"):
         return {"q": k, "a": a, "b": rng.choice(refs)}
+    if k == "umap_lowest":
+        return {"q": k, "a": a, "f": rng.choice(["abs", "abs", "even", "half", "neg"])}
     if k in ("setlen", "homog"):
         return {"q": k, "objs": [rng.choice(refs) for _ in range(rng.randint(2, 4))]}
     if k == "dictget":
@@ -156,6 +159,11 @@ def gen_cases(rng, tier):
             a = {"ref": rng.randrange(len(objs))}
             n0 = rng.choice([0, 0, 1])
             sweep = [{"q": "order", "h": a, "n": n, "pos": rng.randint(-n, n - 1) if n else 0} for n in range(n0, n0 + rng.randint(2, 4))]
+            if len(sweep) >= 2 and rng.random() < 0.7:
+                # ... and back: an n asked before, asked again after other n were built on the same object
+                back = dict(sweep[0] if sweep[0]["n"] else sweep[1])
+                back["pos"] = rng.randint(-back["n"], back["n"] - 1) if back["n"] else 0
+                sweep.append(back)
             j = rng.randrange(len(qs) + 1)
             qs[j:j] = sweep
         qs = _with_echo(rng, qs, [{"ref": i} for i in range(len(objs))])
@@ -261,6 +269,8 @@ def _expected(case, q):
         return [max([i for i, c in enumerate(cs) if c == _canon(_obj(case, x))], default=-1) for x in q["probe"]]
     if k == "items":
         return [[list(o), c] for o, c in _obj(case, q["a"])]
+    if k == "umap_lowest":
+        return "UMAP"
     if k == "lowest":
         items = _obj(case, q["a"])
         g = 0
@@ -275,6 +285,10 @@ def agree(case, r, o):
         return False
     for q, a in zip(case["queries"], r["cold"]):
         e = _expected(case, q)
+        if e == "UMAP":
+            if a["ok"][1:] != [1, True, True, 1]:
+                return False
+            continue
         if e is not None and q["q"] == "eq" and a["ok"][:2] != e[:2]:
             return False
         if e is not None and a["ok"] != e and q["q"] != "eq":
